@@ -50,7 +50,7 @@ def monomial(t):
         base = monomial(t[1])
         ex = strip_casts(t[2])
         if base is None or ex[0] != "c" or not isinstance(ex[1], (int, float, Fraction)) or isinstance(ex[1], bool):
-            return None
+            return (Fraction(1), {tkey(t): Fraction(1)})
         e = Fraction(ex[1]).limit_denominator(10**6)
         if base[0] != 1 and e.denominator != 1:
             return None
